@@ -254,6 +254,23 @@ def i_nondet_string_nocolon(I, args, ins):
     return s
 
 
+def i_nondet_bytes_len(I, args, ins):
+    """A buffer of symbolic length (contents never read by the code under test)."""
+    ctx = I.ctx
+    n = ctx.fresh_int(_label(args[0]) + '.len', 'int', record=True)
+    ctx.add_inv(z3.And(n >= 0, n <= args[1]))
+    base = ctx.alloc((), 'symlen')
+    return Slice(base, 0, n, n)
+
+
+def i_param(I, args, ins):
+    ctx = I.ctx
+    name = _label(args[0])
+    v = ctx.opts.get('params', {}).get(name, args[1])
+    ctx.choice_w['param:' + name] = v
+    return v
+
+
 def i_nocolon(I, args, ins):
     s = args[0]
     if isinstance(s, str):
@@ -272,7 +289,7 @@ INTRINSICS = {
     'verifNondetByte': i_nondet_byte, 'verifNondetString': i_nondet_string, 'verifNondetBytes': i_nondet_bytes,
     'verifNondetTime': i_nondet_time, 'verifNondetTimeMs': i_nondet_time_ms,
     'verifNondetDuration': i_nondet_duration, 'verifChoose': i_choose, 'verifHavoc': i_havoc, 'verifNote': i_note,
-    'verifHex': i_hex, 'verifNondetStringNoColon': i_nondet_string_nocolon, 'verifNoColon': i_nocolon, 'verifNondetURL': i_nondet_url, 'verifAnd': i_and, 'verifOr': i_or,
+    'verifHex': i_hex, 'verifParam': i_param, 'verifNondetBytesLen': i_nondet_bytes_len, 'verifNondetStringNoColon': i_nondet_string_nocolon, 'verifNoColon': i_nocolon, 'verifNondetURL': i_nondet_url, 'verifAnd': i_and, 'verifOr': i_or,
 }
 
 
